@@ -143,6 +143,9 @@ func genRequest(rt *rapid.T, t *vfs.Node) vfs.Req {
 		}
 		r.Overwrite = rapid.SampledFrom([]string{"", "", "", "T", "T", "T", "F", "F", "F", "F", "f", "yes"}).Draw(rt, "overwrite")
 	}
+	if r.Body != "" && rapid.IntRange(0, 3).Draw(rt, "chunked") == 0 {
+		r.Chunked = true
+	}
 	return r
 }
 
